@@ -519,8 +519,20 @@ def r8(ctx):
         ctx.check(P, "C06.R8", "the partial bit of every entry is recorded", used, "partials.push(entry_outcome.partial_bit)", "partial bit of entry leaders is not recorded")
 
 
-RULES = [r1, r2, r3, r4, r5, r6, r7, r7b, r8]
-EXPLANATION = ("C06 (files follow the JavaScript on-disk layout): decides agreement of sibling tables — size/encode/decode of every persisted type against the reference field order and byte shapes "
+def r9(ctx):
+    """entries carry the header bit a reader derives from the two on-disk slots: what Oplog::flush
+    remembers as header bits is what its last header write put on disk, and a trace-clearing flush
+    truncates between its two header writes (the clauses of C02.R5)"""
+    from . import c02
+    before = len(ctx.insts)
+    c02.r5(ctx)
+    for i in ctx.insts[before:]:
+        i.prop, i.rule = P, "C06.R9"
+        i.key = i.key.replace("C02|C02.R5", "C06|C06.R9")
+
+
+RULES = [r1, r2, r3, r4, r5, r6, r7, r7b, r8, r9]
+EXPLANATION = ("[R9: the header bits Oplog::flush remembers are those of its last header write, and a trace-clearing flush truncates between its two header writes] C06 (files follow the JavaScript on-disk layout): decides agreement of sibling tables — size/encode/decode of every persisted type against the reference field order and byte shapes "
                "(R1), Entry flag bits set by the encoder vs tested by the decoder vs the table 1/2/4/8 (R2), leader bit layout of writer vs reader (shift 2, header bit 1, partial bit 2, checksum over "
                "bytes [4, 8+len), zones 4/4) (R3), slot table 0/4096/8192 and the offsets of append / truncate / header writes (R4), bitfield page stride of writer vs reader and page-relative little-endian "
                "words (R5), 40-byte tree records at index*40 with [u64le length][hash] (R6), entries carrying the current header bit and slot choice by the two bits (R7), partial-entry trimming loop able to exit (R8).")
